@@ -11,6 +11,8 @@
                                    real code, see pending_fixes/README-C09.md); proved as `cancel_stops_target_partial`
                                    for kernel tails that do not overlap, and IN FULL (`cancel_stops_target_fixed`) for the
                                    register-before-publish order of pending_fixes/C09-stale-set_co.patch
+    disabled_wait_not_interrupted  proved for the `set_co` of F16 (fresh slots); witnesses for the tree before F16 and for
+                                   the residual reused-slot case
     cancel_single_resume           proved (every configuration)
     uncancelled_never_sees_cancel  proved for a generator that starts with a clean para; witnesses: a `Canceled` para left
                                    unconsumed at the end of the closure by an EventSender-like source (F8, for C15/C16) and
@@ -47,7 +49,7 @@ theorem cancel_stops_target_partial (p0 : Para) (ns : Nat) (sched : List (Actor 
     s.sh.cancelRet = true → s.sh.cst < 2 → Quiescent s →
       s.sh.loc = .done ∨ s.sh.loc = .running ∨ s.sh.loc = .queued := by
   intro s
-  obtain ⟨hA, hB⟩ : InvA s ∧ InvB s := invAB_run _ sched (invA_init false p0 ns false) (invB_init p0 ns)
+  obtain ⟨hA, hB⟩ : InvA s ∧ InvB s := invAB_run _ sched (invA_init false p0 ns false false) (invB_init p0 ns false)
   clear_value s
   intro hret hdis hq
   have hodd := hA.bitR hret
@@ -107,17 +109,20 @@ theorem cancel_lost_stale_set_co :
            (.k 1, .go),                                   -- tail 1: is_canceled = false
            (.e 1, .cancel), (.e 1, .go), (.e 1, .go), (.e 1, .go), (.e 1, .go)], ?_⟩   -- cancel(): takes the stale slot: empty
   refine ⟨by decide, by decide, ?_, by decide, by decide⟩
-  exact quiescent_of_bounded _ _ _ _ _ (by decide)
+  exact quiescent_of_bounded _ _ _ _ _ _ (by decide)
 
 /-- The same statement, IN FULL (overlapping kernel tails, every configuration), for the register-before-publish order of
     pending_fixes/C09-stale-set_co.patch (`fx = true`: `set_co` before the coroutine is published, the re-check takes the
-    tail's own slot). This is the theorem `cancel_stops_target` becomes once the fix is in the tree. -/
-theorem cancel_stops_target_fixed (ov : Bool) (p0 : Para) (ns : Nat) (sched : List (Actor × Env)) :
-    let s := run (init ov p0 ns true) sched
+    tail's own slot; F14, in the tree since 7d62f03), with or without the `set_co` of F16 (`dz`). The premise `cst < 2` at
+    the quiescent state means "cancellation was enabled when the target entered its wait" (the disable count cannot
+    change while the coroutine is suspended); a wait entered with cancellation disabled is deliberately NOT stopped
+    (`disabled_wait_not_interrupted`). -/
+theorem cancel_stops_target_fixed (ov : Bool) (p0 : Para) (ns : Nat) (dz : Bool) (sched : List (Actor × Env)) :
+    let s := run (init ov p0 ns true dz) sched
     s.sh.cancelRet = true → s.sh.cst < 2 → Quiescent s →
       s.sh.loc = .done ∨ s.sh.loc = .running ∨ s.sh.loc = .queued := by
   intro s
-  obtain ⟨hA, hF⟩ : InvA s ∧ InvF s := invAF_run _ sched (invA_init ov p0 ns true) (invF_init ov p0 ns)
+  obtain ⟨hA, hF⟩ : InvA s ∧ InvF s := invAF_run _ sched (invA_init ov p0 ns true dz) (invF_init ov p0 ns dz)
   clear_value s
   intro hret hdis hq
   have hodd := hA.bitR hret
@@ -161,18 +166,68 @@ example :
        (.k 0, .go), (.k 0, .go), (.k 0, .go)]               -- wait_co.store ; is_canceled ; own-slot take
     s.sh.cancelRet = true ∧ quiescentB s = true ∧ s.sh.loc = .queued ∧ s.sh.para = .canceled := by decide
 
+/-! ### disabled_wait_not_interrupted (F16) -/
+
+/-- With the `set_co` of F16 (`dz`: a wait entered while cancellation is disabled withdraws the registration instead of
+    registering), a wait that is entered with the disable count > 0 on a slot that no earlier wait of the coroutine used
+    (a fresh `Blocker` / `SyncBlocker` / sleep cell – what `Condvar::wait`'s re-lock and every in-tree disabled wait use)
+    is never resumed with para = Canceled by `cancel()` or by a kernel tail's re-check: `badIntr` stays false, for every
+    number of cancellers, overlapping tails and every interleaving. The cancel bit is still set and is honoured at the
+    next cancellation point after `enable_cancel` (example below). This is what makes the `b_ignore` path of `Mutex::lock`
+    (and the lost wake-up on it, F16) unreachable. -/
+theorem disabled_wait_not_interrupted (ov : Bool) (p0 : Para) (ns : Nat) (sched : List (Actor × Env)) :
+    (run (init ov p0 ns true true) sched).sh.badIntr = false :=
+  (invAD_run _ sched (invA_init ov p0 ns true true) (invD_init ov p0 ns)).2.bad
+
+/-- non-vacuity: cancellation disabled, the coroutine sleeps, `cancel()` runs to its end: the wait is protected, the
+    coroutine is still in its slot, nothing was delivered -/
+example :
+    let s := run (init true .none 1 true true)
+      [(.p, .disable), (.p, .sleep), (.p, .go), (.k 0, .go), (.k 0, .go), (.k 0, .go),
+       (.e 0, .cancel), (.e 0, .go), (.e 0, .go), (.e 0, .go)]
+    s.sh.pw = some 1 ∧ s.sh.cancelRet = true ∧ s.sh.cst = 3 ∧ s.sh.loc = .slot 1 ∧ s.sh.para = .none ∧ quiescentB s = true := by decide
+/-- ... the timer ends the sleep, the coroutine enables cancellation again, its next yield raises the Cancel panic -/
+example :
+    let s := run (init true .none 1 true true)
+      [(.p, .disable), (.p, .sleep), (.p, .go), (.k 0, .go), (.k 0, .go), (.k 0, .go),
+       (.e 0, .cancel), (.e 0, .go), (.e 0, .go), (.e 0, .go),
+       (.e 1, .timer 1), (.p, .go), (.p, .go), (.p, .go), (.p, .enable), (.p, .yld), (.p, .go), (.p, .go)]
+    s.sh.sawCancel = true ∧ s.sh.badIntr = false := by decide
+
+/-- WITNESS (the tree before F16, `dz = false`): the same wait IS interrupted – in `Mutex::lock` under `Condvar::wait` that
+    is the `b_ignore` path, on which the cancel wake-up can eat the un-parker's token (lost wake-up, F16). -/
+theorem disabled_wait_interrupted_without_f16 :
+    ∃ sched : List (Actor × Env),
+      let s := run (init true .none 1 true false) sched
+      s.sh.badIntr = true ∧ s.sh.para = .canceled ∧ 2 ≤ s.sh.cst := by
+  exact ⟨[(.p, .disable), (.p, .sleep), (.p, .go), (.k 0, .go), (.k 0, .go),
+          (.e 0, .cancel), (.e 0, .go), (.e 0, .go), (.e 0, .go), (.e 0, .go)], by decide⟩
+
+/-- WITNESS (residual assumption of F16): on a slot that an EARLIER, enabled wait registered, a canceller that took that
+    registration and stalled still interrupts a later disabled wait on the same slot. Not reachable in the tree: disabled
+    waits (the re-lock in `Condvar::wait`, `Park::drop`'s spin) use a fresh blocker or no slot at all. -/
+theorem disabled_wait_on_reused_slot_interrupted :
+    ∃ sched : List (Actor × Env),
+      let s := run (init true .none 1 true true) sched
+      s.sh.para = .canceled ∧ 2 ≤ s.sh.cst ∧ s.sh.loc = .queued ∧ s.sh.badIntr = false := by
+  exact ⟨[(.p, .park 0 true), (.p, .go), (.k 0, .go), (.k 0, .go), (.k 0, .go), (.k 0, .go),   -- enabled park on slot 0: registered
+          (.e 0, .take 0), (.p, .go), (.p, .go), (.p, .go),                                 -- un-parked, returns
+          (.e 1, .cancel), (.e 1, .go), (.e 1, .go), (.e 1, .go),                           -- cancel(): took the registration, stalls
+          (.p, .disable), (.p, .park 0 true), (.p, .go), (.k 1, .go), (.k 1, .go), (.k 1, .go),   -- disabled park on slot 0
+          (.e 1, .go)], by decide⟩
+
 /-! ### cancel_single_resume -/
 
 /-- Event, timer and canceller compete for one linear coroutine token: it is never in the ready list twice, never in two
     slots, never in a slot and in the ready list or running at the same time; resumes never outnumber switch-outs. -/
-theorem cancel_single_resume (ov : Bool) (p0 : Para) (ns : Nat) (fx : Bool) (sched : List (Actor × Env)) :
-    let s := run (init ov p0 ns fx) sched
+theorem cancel_single_resume (ov : Bool) (p0 : Para) (ns : Nat) (fx dz : Bool) (sched : List (Actor × Env)) :
+    let s := run (init ov p0 ns fx dz) sched
     s.sh.rq ≤ 1 ∧ s.sh.resumes ≤ s.sh.yields ∧
     (∀ a b : Nat, s.sh.slot a = true → s.sh.slot b = true → a = b) ∧
     (∀ a : Nat, s.sh.slot a = true → s.sh.rq = 0 ∧ pRuns s.ppc = false) ∧
     (s.sh.rq = 1 → pRuns s.ppc = false) := by
   intro s
-  have hA : InvA s := invA_run _ sched (invA_init ov p0 ns fx)
+  have hA : InvA s := invA_run _ sched (invA_init ov p0 ns fx dz)
   clear_value s
   have h2 := hA.l2; have h3 := hA.l3; have h5 := hA.l5; have h1 := hA.l1
   refine ⟨by split at h2 <;> omega, by cases hp : s.ppc <;> simp [hp, pRuns] at h5 <;> omega, ?_, ?_, ?_⟩
@@ -199,14 +254,14 @@ example :
 
 /-- On a generator that starts with a clean para, `para = Canceled`, a park result `Err(Canceled)` and the Cancel panic
     occur only if the cancel bit of this coroutine is set (somebody called `cancel()` on it). -/
-theorem uncancelled_never_sees_cancel (ov : Bool) (p0 : Para) (ns : Nat) (fx : Bool) (hp : p0 ≠ .canceled) (sched : List (Actor × Env)) :
-    let s := run (init ov p0 ns fx) sched
+theorem uncancelled_never_sees_cancel (ov : Bool) (p0 : Para) (ns : Nat) (fx dz : Bool) (hp : p0 ≠ .canceled) (sched : List (Actor × Env)) :
+    let s := run (init ov p0 ns fx dz) sched
     (s.sh.para = .canceled → s.sh.cst % 2 = 1) ∧ (s.sh.lastRes = .canceled → s.sh.cst % 2 = 1) ∧
     (s.sh.sawCancel = true → s.sh.cst % 2 = 1) := by
   intro s
-  have hA : InvA s := invA_run _ sched (invA_init ov p0 ns fx)
+  have hA : InvA s := invA_run _ sched (invA_init ov p0 ns fx dz)
   have hst : s.sh.stale0 = false := by
-    rw [show s = run (init ov p0 ns fx) sched from rfl, run_stale0]
+    rw [show s = run (init ov p0 ns fx dz) sched from rfl, run_stale0]
     cases p0 <;> simp_all [init]
   clear_value s
   refine ⟨fun h => ?_, fun h => ?_, hA.bitS⟩
@@ -253,13 +308,13 @@ theorem cancel_no_poison_decision (gp tp ic : Bool) :
 /-- For a guard taken in normal execution and dropped by an unwind, the flag stays clear iff the unwind is (judged to be)
     a cancellation; and in the model a coroutine that unwinds from its Cancel panic with no `disable_cancel` in effect
     does satisfy `is_canceled`, so the locks it held are released un-poisoned. -/
-theorem cancel_no_poison (ov : Bool) (p0 : Para) (ns : Nat) (fx : Bool) (sched : List (Actor × Env)) :
+theorem cancel_no_poison (ov : Bool) (p0 : Para) (ns : Nat) (fx dz : Bool) (sched : List (Actor × Env)) :
     (∀ ic : Bool, poisonDone false true ic = false ↔ ic = true) ∧
-    (let s := run (init ov p0 ns fx) sched
+    (let s := run (init ov p0 ns fx dz) sched
      s.sh.sawCancel = true → s.sh.cst < 2 → poisonDone false true (isCanceled s.sh) = false) := by
   refine ⟨by intro ic; cases ic <;> decide, ?_⟩
   intro s
-  have hA : InvA s := invA_run _ sched (invA_init ov p0 ns fx)
+  have hA : InvA s := invA_run _ sched (invA_init ov p0 ns fx dz)
   clear_value s
   intro hs hd
   have hodd := hA.bitS hs
